@@ -230,9 +230,7 @@ BODYSETS = {
         # (register_g_functions, new_raw / new, the enforce wrappers, build_incremental_role_links, on / off / emit) translate it
     ],
     "model": [
-        ("add_def", DM, fnre("add_def")),
-        ("load_section", DM, fnre("load_section")),
-        ("load_assertion", DM, fnre("load_assertion")),
+        # add_def, load_section, load_assertion, get_key_suffix, from_str, to_text: TRANSLATED (tools/rs2coq_ini.py, PcIniGen.v)
         ("add_policy", DM, fnre("add_policy")),
         ("add_policies", DM, fnre("add_policies")),
         ("get_policy", DM, fnre("get_policy")),
@@ -242,7 +240,6 @@ BODYSETS = {
         ("remove_policy", DM, fnre("remove_policy")),
         ("remove_policies", DM, fnre("remove_policies")),
         ("remove_filtered_policy", DM, fnre("remove_filtered_policy")),
-        ("to_text", DM, fnre("to_text")),
     ],
     "internal": [
     ],
@@ -262,11 +259,9 @@ BODYSETS = {
             ("remove_filtered_policy", True)]
     ],
     "util": [
+        # config.rs (parse_buffer, add_config, get, get_str, from_str) is TRANSLATED (tools/rs2coq_ini.py, PinChecks/PcIniGen.v)
         # escape_assertion, escape_eval, parse_csv_line (and the regex literals they use) are TRANSLATED through the regex
         # semantics of Gen/Regex.v (tools/rs2coq_regex.py, PinChecks/PcRegexGen.v), not hash-pinned
-        ("config_parse_buffer", "src/config.rs", fnre("parse_buffer", True)),
-        ("config_add_config", "src/config.rs", fnre("add_config")),
-        ("config_get", "src/config.rs", fnre("get")),
     ],
     "fmap": [
         (n, "src/model/function_map.rs", r"pub\s+" + fnre(n)) for n in
